@@ -342,7 +342,7 @@ def c15_build(dora, boots, src, kind, cg, gc, pert, outdir):
     for n in pert["neighbours"]:
         with open(os.path.join(outdir, n), "w") as f:
             f.write("neighbour\n")
-    out = os.path.join(outdir, "artifact")
+    out = os.path.join(outdir, pert.get("outname", "artifact"))
     cmd = [dora, "compile", src, "--gc=" + gc]
     cmd += ["--cannon"] if cg == "cannon" else ["--compiler", boots]
     if kind == "package":
@@ -363,6 +363,11 @@ def c15_build(dora, boots, src, kind, cg, gc, pert, outdir):
         path = out + ".s" if kind == "asm" else out
         if os.path.exists(path):
             arts[kind] = sha(path)
+    # neighbours of the output must be left alone
+    for n in pert["neighbours"]:
+        q = os.path.join(outdir, n)
+        if not os.path.exists(q) or open(q).read() != "neighbour\n":
+            arts["clobbered"] = n
     return p.returncode, arts, p.stderr.decode(errors="replace")[-600:]
 
 
@@ -403,9 +408,19 @@ def c15(tier):
         group = rng.getrandbits(60) if sibling else None
         perts = [pert_for(rng, "%d-%d" % (i, k), group) for k in range(nbuilds)]
         results = [None] * nbuilds
+        same_dir = sibling and kind == "exe" and rng.random() < 0.6
+        for k, pt in enumerate(perts):
+            if same_dir:
+                # concurrent builds into ONE directory: same stem, different extension
+                pt["outname"] = "artifact.v%d" % k
+                pt["neighbours"] = []
+            elif kind != "asm" and rng.random() < 0.3:
+                # a neighbour that shares the stem of the output
+                pt["neighbours"] = pt["neighbours"] + ["artifact.s"]
 
         def one(k):
-            results[k] = c15_build(dora, boots, src, kind, cg, gc, perts[k], os.path.join(perts[k]["dir"], "out"))
+            outdir = os.path.join(perts[0]["dir"], "out") if same_dir else os.path.join(perts[k]["dir"], "out")
+            results[k] = c15_build(dora, boots, src, kind, cg, gc, perts[k], outdir)
 
         if sibling:
             ths = [threading.Thread(target=one, args=(k,)) for k in range(nbuilds)]
@@ -428,6 +443,9 @@ def c15(tier):
             return None
         if any(rc != 0 for rc in rcs):
             return ("nondeterministic-failure", "exit statuses %r for identical inputs; %s" % (rcs, [x[2][-160:] for x in rs if x[0] != 0][:1]))
+        for x in rs:
+            if "clobbered" in x[1]:
+                return ("neighbour-clobbered", "the build changed or removed %r next to its output (%s of %s)" % (x[1]["clobbered"], r["kind"], os.path.basename(r["src"])))
         hashes = [x[1].get(r["kind"]) for x in rs]
         if len(set(hashes)) != 1:
             return ("artifact-differs", "%s of %s (%s, %s): %r" % (r["kind"], os.path.basename(r["src"]), r["cg"], r["gc"], [h[:12] if h else None for h in hashes]))
@@ -633,7 +651,11 @@ def c18(tier):
         if kind == "truncate":
             fault = ("truncate", rng.choice([0, 1, n - 1, n // 2, rng.randrange(n), rng.randrange(min(n, 4096))]))
         elif kind == "bitflip":
-            fault = ("bitflip", rng.randrange(n) if rng.random() < 0.8 else rng.randrange(min(n, 2048)), rng.randrange(8))
+            # uniform over the file, with extra weight on the first bytes (lengths, ids) and on
+            # the last bytes (end of the encoding and the integrity trailer)
+            r = rng.random()
+            pos = rng.randrange(n) if r < 0.6 else (rng.randrange(min(n, 2048)) if r < 0.75 else n - 1 - rng.randrange(min(n, 24)))
+            fault = ("bitflip", pos, rng.randrange(8))
         elif kind == "zero_block":
             blk = rng.choice([512, 4096])
             fault = ("zero_block", (rng.randrange(n) // blk) * blk, blk)
@@ -672,10 +694,11 @@ def c18(tier):
         if res["rc"] < 0:
             return ("signal:%d" % -res["rc"], err[:160])
         if r["consumer"] == "decoder":
-            # 0 = accepted and re-encodes to the damaged bytes (a different but self-consistent
-            # program: decided by the real consumers), 1 = accepted but re-encodes differently, 2 = refused
-            if res["rc"] == 1 and not res["unchanged"]:
-                return None
+            # 0 = accepted and re-encodes to the damaged bytes, 1 = accepted but re-encodes
+            # differently, 2 = refused. Accepting bytes that differ from what was written means
+            # a different program than the one that was encoded got through.
+            if res["rc"] in (0, 1) and not res["unchanged"]:
+                return ("corruption-accepted", "the decoder accepted a damaged package (%s)" % (r["fault"],))
             return None
         if res["rc"] != 0:
             if len([l for l in err.strip().splitlines() if l.strip()]) > 4:
@@ -700,10 +723,30 @@ def c18(tier):
             v = ("truncation-accepted", "package truncated at byte %d of %d was accepted by the decoder" % (k, len(packages[small])))
         return r, res, v
 
+    # bit-flip sweep through the decoder: every bit of the first and last 64 bytes (lengths,
+    # ids, end of the encoding, integrity trailer) and one seeded bit of every k-th byte
+    nsmall = len(packages[small])
+    frng = tb.stream(s, "C18", 0, "flipsweep")
+    flips = []
+    for pname in packages:
+        n_p = len(packages[pname])
+        flips += [(pname, k, b) for k in list(range(min(64, n_p))) + list(range(max(0, n_p - 64), n_p)) for b in range(8)]
+    flips += [(small, k, frng.randrange(8)) for k in range(64, nsmall - 64, 7 if tier == "thorough" else 61)]
+
+    def flip(kb):
+        r = {"index": -2, "program": kb[0], "fault": ["bitflip", kb[1], kb[2]], "consumer": "decoder"}
+        res = execute(r)
+        return r, res, classify(r, res)
+
+    flip_done = 0
     from concurrent.futures import ThreadPoolExecutor
     with ThreadPoolExecutor(JOBS) as ex:
         for r, res, v in ex.map(trunc, positions):
             trunc_done += 1
+            if v is not None:
+                trunc_vio.append((r, res, v))
+        for r, res, v in ex.map(flip, flips):
+            flip_done += 1
             if v is not None:
                 trunc_vio.append((r, res, v))
 
@@ -741,7 +784,7 @@ def c18(tier):
         if res is not None:
             cres = execute(r)
             cv = classify(r, cres)
-            if (cv is None or cv[0] != v[0]) and v[0] != "truncation-accepted":
+            if (cv is None or cv[0] != v[0]) and v[0] not in ("truncation-accepted",):
                 harness_error("C18 violation %s did not reproduce" % (v,))
         rp = save_replay("C18", {"property": "C18", "tier": "C", "case": r, "violation_class": v[0], "violation": v[1]})
         k = match_known("C18", key)
@@ -755,13 +798,14 @@ def c18(tier):
     shutil.rmtree(base, ignore_errors=True)
     wall = time.time() - t0
     coverage = {
-        "evaluations": len(done) + trunc_done + ff_checks,
-        "distinct_nontrivial": len(distinct) + trunc_done,
+        "evaluations": len(done) + trunc_done + flip_done + ff_checks,
+        "distinct_nontrivial": len(distinct) + trunc_done + flip_done,
         "rule": "one evaluation = one damaged package (truncate@k, bitflip@(byte,bit), zeroed 512/4096-byte block, duplicated block, garbage tail) of a package written by the real front end, read by one real consumer (decoder helper linked against dora-bytecode, dora-cannon-compiler, boots compiler, dora compile <pkg>); plus the strided/exhaustive single-byte truncation sweep of the smallest package through the decoder; plus the fault-free checks (re-encode == bytes, package->executable == source->executable); "
                 "distinct non-trivial = distinct (package, fault, consumer) whose outcome was 'refused cleanly' or 'accepted with identical artifact'",
         "samples": samples,
         "exhaustive": False,
         "truncation_sweep": {"package": small, "bytes": len(packages[small]), "stride": stride, "positions": trunc_done},
+        "bitflip_sweep": {"packages": sorted(packages), "every_bit_of_first_and_last_64_bytes_of_every_package": True, "flips": flip_done},
         "fault_kinds_fired": fired,
         "outcomes": outcome,
         "fault_free_checks": ff_checks,
